@@ -260,6 +260,9 @@ pub struct Ctx {
     /// systems currently inside run / systems that have completed run (all uids)
     pub active: AtomicU32,
     pub finished: AtomicU64,
+    /// batch controllers catch a panic of their inner dispatch and dispatch again
+    pub ctl_catches: AtomicBool,
+    pub ctl_caught: AtomicU32,
     pub panic_fired: AtomicU32,
 }
 
@@ -290,6 +293,8 @@ impl Ctx {
             fired: v32(n_uids),
             active: AtomicU32::new(0),
             finished: AtomicU64::new(0),
+            ctl_catches: AtomicBool::new(false),
+            ctl_caught: AtomicU32::new(0),
             panic_fired: AtomicU32::new(0),
         })
     }
